@@ -2289,10 +2289,10 @@ def replay(ctx, data):
         if case.get("module_file_state"):
             c2 = type(ctx)(ctx.pid, "thorough", data.get("seed", 0))
             oracle_foreign_module(c2, env)
-            bad = [v for v in c2.violations if v["case"]["module_file_state"] == case["module_file_state"]]
+            bad = [v for v in c2.violations if v["site"] == data.get("site")]
             for v in bad[:3]:
                 print("  ", v["site"], v["case"]["action"], v["detail"])
-            return not c2.violations
+            return not bad
         if "action" in case:
             c = {"name": case["position"], "templates": dict(case.get("templates") or {}, main=case["input"]),
                  "expected": tuple(case["expected"]), "exact": case["expected"][1], "literal": case["literal"],
